@@ -7,10 +7,11 @@
    positive Z). Outcome Ok/Err/Panic/OutOfFuel: every theorem below concludes Ok, so it
    excludes errors, panics and fuel exhaustion of the model.
 
-   Scope note (see C01_roundtrip): the segment offsets of the format are 32-bit. The round
-   trip, validity and reader theorems carry the hypothesis "encoded length <= 2^32"; it is
-   discharged for every frame with 64 + planes*(2*npix+1) <= 2^32 (C01_roundtrip_below_4GiB).
-   Without it the statement (RleProofs.rle_roundtrip_statement) is false for the code. *)
+   Scope note: the segment offsets of the format are 32-bit. Since /repo commit bc7f8bf
+   (finding F26) encodeFrame returns an error when a segment would start at or beyond 2^32
+   (C01_encode_err_iff); every stream it does return round-trips and is valid with no size
+   hypothesis (C01_roundtrip), and it returns one whenever 64 + planes*(2*npix+1) <= 2^32
+   (C01_encode_ok_below_4GiB). The pre-fix witness is recorded in RLE/RleProofs.v. *)
 From V Require Import Common.Base RLE.RleModel RLE.RleSpec RLE.RleEncProofs RLE.RleDecProofs
   RLE.RleFrameLemmas RLE.RleFrameEnc RLE.RleFrameDec RLE.RleProofs.
 
@@ -43,45 +44,53 @@ Theorem C01_segment_roundtrip : forall l, bytesP l ->
 Proof. exact rle_segment_roundtrip. Qed.
 Print Assumptions C01_segment_roundtrip.
 
-(* Frame round trip for every accepted geometry and every byte content. *)
-Theorem C01_roundtrip : forall g frame, geom_ok g -> bytesP frame -> zlen frame = frame_len g ->
-  exists enc, rle_encode g frame = Ok enc /\
-    (zlen enc <= 2 ^ 32 -> rle_decode g enc = Ok (frame ++ pad_of g)).
+(* Frame level: for every accepted geometry (ba in {1,2,4}, spp in {1,3}, planar or not,
+   npix = Rows*Columns any positive integer) and every byte frame of the native length:
+   whenever Encode returns a stream, Decode of it returns the frame (+ one zero byte when the
+   native length is odd) and the stream is valid Annex G (even length, 64-byte header, count
+   = planes, offsets[0] = 64, offsets even, strictly ascending, inside the stream, unused
+   offsets zero). No size hypothesis. *)
+Theorem C01_roundtrip : forall g frame enc, geom_ok g -> bytesP frame -> zlen frame = frame_len g ->
+  rle_encode g frame = Ok enc ->
+  rle_decode g enc = Ok (frame ++ pad_of g) /\ annexG_valid (g_ba g * g_spp g) enc = true.
 Proof. exact rle_roundtrip. Qed.
 Print Assumptions C01_roundtrip.
 
-Theorem C01_roundtrip_below_4GiB : forall g frame, geom_ok g -> bytesP frame -> zlen frame = frame_len g ->
+(* Encode refuses a frame (error, never a panic) exactly when a segment would start beyond
+   the 32-bit offset range; otherwise it returns the closed-form stream ... *)
+Theorem C01_encode_err_iff : forall g frame, geom_ok g -> zlen frame = frame_len g ->
+  (rle_encode g frame = Err <-> overflows (seg_list g frame) = true) /\
+  (overflows (seg_list g frame) = false -> rle_encode g frame = Ok (stream_of (seg_list g frame))).
+Proof. exact rle_encode_err_iff. Qed.
+Print Assumptions C01_encode_err_iff.
+
+Theorem C01_overflows_iff : forall segs,
+  overflows segs = true <->
+  exists j, (j < length segs)%nat /\ 64 + zlen (body (firstn j segs)) > 4294967295.
+Proof. exact overflows_iff. Qed.
+Print Assumptions C01_overflows_iff.
+
+(* ... and it accepts every frame whose worst-case encoding fits 4 GiB (every native frame up
+   to 2^31 - 40 bytes): the domain explored by the harness lies well inside. *)
+Theorem C01_encode_ok_below_4GiB : forall g frame, geom_ok g -> bytesP frame -> zlen frame = frame_len g ->
   64 + nseg g * (2 * g_npix g + 1) <= 2 ^ 32 ->
-  exists enc, rle_encode g frame = Ok enc /\ rle_decode g enc = Ok (frame ++ pad_of g).
-Proof. exact rle_roundtrip_bounded. Qed.
-Print Assumptions C01_roundtrip_below_4GiB.
+  exists enc, rle_encode g frame = Ok enc.
+Proof. exact rle_encode_ok_below_4GiB. Qed.
+Print Assumptions C01_encode_ok_below_4GiB.
 
 (* The same through decodeFrame's FrameInfo argument (uint16 fields, BitsAllocated 8/16/32,
    Rows, Columns in 1..65535): the allocation does not panic and the result is the frame. *)
-Theorem C01_roundtrip_frameinfo : forall fi frame, fi_ok fi -> bytesP frame ->
+Theorem C01_roundtrip_frameinfo : forall fi frame enc, fi_ok fi -> bytesP frame ->
   zlen frame = frame_len (fi_geom fi) ->
-  exists enc, rle_encode (fi_geom fi) frame = Ok enc /\
-    (zlen enc <= 2 ^ 32 -> rle_decode_frame fi enc = Ok (frame ++ pad_of (fi_geom fi))).
+  rle_encode (fi_geom fi) frame = Ok enc ->
+  rle_decode_frame fi enc = Ok (frame ++ pad_of (fi_geom fi)).
 Proof. exact rle_roundtrip_frameinfo. Qed.
 Print Assumptions C01_roundtrip_frameinfo.
-
-(* Annex G validity: even length, 64-byte header, count = planes, offsets[0] = 64, offsets
-   even, strictly ascending, inside the stream, unused offsets zero. *)
-Theorem C01_stream_valid : forall g frame enc, geom_ok g -> bytesP frame -> zlen frame = frame_len g ->
-  rle_encode g frame = Ok enc -> zlen enc <= 2 ^ 32 ->
-  annexG_valid (g_ba g * g_spp g) enc = true.
-Proof. exact rle_stream_valid. Qed.
-Print Assumptions C01_stream_valid.
-
-Theorem C01_stream_even : forall g frame enc, geom_ok g -> zlen frame = frame_len g ->
-  rle_encode g frame = Ok enc -> Z.even (zlen enc) = true /\ 64 <= zlen enc.
-Proof. exact rle_stream_even. Qed.
-Print Assumptions C01_stream_even.
 
 (* The independent Annex G reader, applied to segment s as delimited by the header of the
    encoded frame, returns byte plane s of the frame ... *)
 Theorem C01_independent_reader : forall g frame enc s, geom_ok g -> bytesP frame -> zlen frame = frame_len g ->
-  rle_encode g frame = Ok enc -> zlen enc <= 2 ^ 32 -> 0 <= s < g_ba g * g_spp g ->
+  rle_encode g frame = Ok enc -> 0 <= s < g_ba g * g_spp g ->
   packbits_n (g_npix g) (nth (Z.to_nat s) (segments (g_ba g * g_spp g) enc) []) = Some (plane g frame s).
 Proof. exact rle_independent_reader. Qed.
 Print Assumptions C01_independent_reader.
@@ -112,7 +121,7 @@ Theorem C01_decode_any_split : forall g frame (css : list (list chunk)), geom_ok
   length css = Z.to_nat (nseg g) ->
   (forall j, (j < length css)%nat -> Forall chunk_ok (nth j css []) /\
                                      dat_chunks (nth j css []) = plane g frame (Z.of_nat j)) ->
-  zlen (stream_of (map enc_chunks css)) <= 2 ^ 32 ->
+  overflows (map enc_chunks css) = false ->
   rle_decode g (stream_of (map enc_chunks css)) = Ok (frame ++ pad_of g).
 Proof. exact rle_decode_any_split. Qed.
 Print Assumptions C01_decode_any_split.
@@ -182,6 +191,7 @@ Example C01_decode_any_split_nonvacuous :
   let css := [[Lit [4;4]; Rep 4 3]] in
   geom_ok g /\ zlen frame = frame_len g /\ length css = Z.to_nat (nseg g) /\
   Forall chunk_ok (nth 0 css []) /\ dat_chunks (nth 0 css []) = plane g frame 0 /\
+  overflows (map enc_chunks css) = false /\
   rle_decode g (stream_of (map enc_chunks css)) = Ok (frame ++ [0]).
 Proof.
   cbv zeta. split. { unfold geom_ok; cbn; lia. }
@@ -189,9 +199,16 @@ Proof.
   split. { cbn [nth]. constructor; [|constructor; [|constructor]]; cbn [chunk_ok].
            - split; [vm_compute; split; discriminate|apply bytesP_of_all_bytes; reflexivity].
            - unfold byteP. lia. }
-  split; vm_compute; reflexivity.
+  repeat split; vm_compute; reflexivity.
 Qed.
 
 Example C01_frameinfo_nonvacuous :
   fi_ok (mkFI 65535 65535 32 3 1) /\ fi_geom (mkFI 65535 65535 32 3 1) = mkG 4 3 true 4294836225.
 Proof. split; [unfold fi_ok; cbn; lia|reflexivity]. Qed.
+
+(* the overflow test on a concrete frame: offsets 64,68,..., none above MaxUint32 *)
+Example C01_encode_err_iff_nonvacuous :
+  geom_ok ex_g /\ zlen ex_frame = frame_len ex_g /\
+  offsets_from 64 (seg_list ex_g ex_frame) = [64; 68; 72; 74; 76; 80] /\
+  overflows (seg_list ex_g ex_frame) = false.
+Proof. split; [unfold geom_ok, ex_g; cbn; lia|]. repeat split; vm_compute; reflexivity. Qed.
